@@ -68,6 +68,7 @@ func newBufferNode(size int) *linkBufferNode {
 //
 // NOTE: Reset won't recycle the buffer of node.
 func (b *linkBufferNode) Reset() {
+	verifPoison(b.buf)
 	b.buf = b.buf[:0]
 	b.off, b.malloc = 0, 0
 	b.readOnly = false
@@ -112,5 +113,6 @@ func free(buf []byte) {
 	if cap(buf) > mallocMax {
 		return
 	}
+	verifPoison(buf)
 	mcache.Free(buf)
 }
